@@ -146,6 +146,8 @@ type Outcome struct {
 	BarrierOpened bool      `json:"barrier_opened,omitempty"`
 	BarrierSeen   int       `json:"barrier_seen,omitempty"`
 	Gids          int       `json:"gids,omitempty"`
+	CallGid       int64     `json:"call_gid,omitempty"`
+	Dirty         bool      `json:"dirty,omitempty"`
 	ParamTypes    []string  `json:"param_types,omitempty"`
 	DurUs         int64     `json:"dur_us"`
 }
@@ -607,6 +609,7 @@ func Execute(sc *Scenario) *Outcome {
 		}
 	}
 	o.DurUs = time.Since(t0).Microseconds()
+	o.CallGid = callGid.Load()
 	o.BarrierOpened = r.opened.Load()
 	o.BarrierSeen = int(r.barrier.Load())
 	if !returned {
@@ -721,8 +724,10 @@ func Execute(sc *Scenario) *Outcome {
 	cancel()
 	// let stragglers that only waited for cancellation finish before the next scenario
 	if len(alive) > 0 {
+		o.Dirty = true
 		for i := 0; i < 100; i++ {
 			if len(mine(dump(sc.Prog), callGid.Load())) == 0 {
+				o.Dirty = false
 				break
 			}
 			time.Sleep(5 * time.Millisecond)
@@ -779,7 +784,7 @@ func Main() {
 		fmt.Fprintf(os.Stderr, "END %s\n", s.ID)
 		b, _ := json.Marshal(o)
 		out.Write(append(b, '\n'))
-		if o.Deadlock || o.Unsettled || len(o.Leaked) > 0 {
+		if o.Deadlock || o.Unsettled || len(o.Leaked) > 0 || o.Dirty {
 			// the process now carries goroutines that will never finish;
 			// let the parent restart a fresh child for the remaining scenarios
 			out.Close()
